@@ -175,6 +175,7 @@ def run(ctx):
     r8 = ctx.rule('R04.8', 'matching a generic parameter type always records a binding for it (also against a generic of the same name)')
     generic_match_recorded(ctx, r8)
     compiled_expressions_typed(ctx)
+    optional_range_consulted(ctx)
 
     # ---------------- R04.2 zips
     r2 = ctx.rule('R04.2', 'every zip of two runtime-length lists is preceded by a length test on the same lists')
@@ -654,3 +655,55 @@ def compiled_expressions_typed(ctx):
             if not typed:
                 r9.fail('%s/compiled-expression-untyped' % fn, mirq.site(b, bb), 'the compiled expression leaves this body without type_of: it is never compared with a declared type (a parameter default of another type than its parameter is accepted: fn f(x: int ?= "a") -> int { x + 1 } compiles and f() crashes the interpreter)')
     r9.need(3)
+
+
+def optional_range_consulted(ctx):
+    """R04.10: a function type's parameter list carries optional parameters; how many arguments it accepts is the *range*
+    arg_len_range() gives (required .. all), not the length of the list.  Wherever a relation pairs the parameters of a function
+    type with another list (zip), a dominating branch is computed from arg_len_range of that function type -- for both sides when
+    both are function types.  Comparing only `params.len()` forgets which parameters are optional."""
+    from .lib import zips, mirq
+    from .lib.facts import strip_generics, callee_name, op_place
+    mir = ctx.mir
+    r10 = ctx.rule('R04.10', 'the arity test in front of a zip over a function type\'s parameters consults its optional-parameter range')
+    for b in mir.bodies:
+        if b.file != XT:
+            continue
+        fn = b.nid.split('::{closure')[0].split('::')[-1]
+        if fn == 'eq':
+            continue      # equality pairs the `required` flags pointwise inside the zip (R04.3 decides that it reads them)
+        for bb, tm, A, B in zips.zips_of(b):
+            for side in (A, B):
+                ident = side[2]
+                if ident[0] != 'field' or not ident[1].endswith('XFunc.0.params'):
+                    continue
+                spec = ident[1][:-len('.params')]
+                seen = False
+                for d in sorted(b.dominators().get(bb, ())):
+                    t2 = b.term(d)
+                    if t2['k'] != 'switch' or d == bb:
+                        continue
+                    p = op_place(t2['discr'])
+                    if p is None:
+                        continue
+                    sl = mirq.backslice(b, [p['l']])
+                    for cbb, ct in b.calls():
+                        if ct['dest']['p'] or ct['dest']['l'] not in sl:
+                            continue
+                        if strip_generics(callee_name(ct) or '') != 'xtype::XFuncSpec::arg_len_range' or not ct['args']:
+                            continue
+                        q = op_place(ct['args'][0])
+                        if q is None:
+                            continue
+                        k2, d2, r2_, root2 = zips.origin(b, q['l'])
+                        pth = zips.place_path(b, q)
+                        base = d2 if k2 == 'field' else ('arg%s' % d2 if k2 == 'param' else None)
+                        if base is None:
+                            continue
+                        full = base + ('.' + '.'.join(pth) if pth else '')
+                        if full == spec:
+                            seen = True
+                r10.inst({'fn': fn, 'zip': mirq.site(b, bb), 'function_type': spec, 'range_consulted': seen}, ok=seen, kind=(b.nid, bb, spec))
+                if not seen:
+                    r10.fail('%s/zip/%s/optional-range-ignored' % (fn, spec), mirq.site(b, bb), 'the parameters of the function type `%s` are paired after an arity test that does not consult its arg_len_range(): optional parameters count as required (or the reverse), e.g. a field of type (int, int?)->int accepts (int, int)->int, which is then called with one argument' % spec)
+    r10.need(2)
